@@ -875,3 +875,110 @@ pub fn small_tree(nonce: u64) -> TreeSpec {
 pub fn probe_request() -> Vec<u8> {
     get("/probe.txt")
 }
+
+
+// ------------------------------------------------------------------------------- start-up (Boot)
+
+const CORS_KEYS: [(&str, &str, bool); 7] = [
+    ("RWS_CONFIG_CORS_ALLOW_ALL", "allow_all", false),
+    ("RWS_CONFIG_CORS_ALLOW_ORIGINS", "allow_origins", true),
+    ("RWS_CONFIG_CORS_ALLOW_METHODS", "allow_methods", true),
+    ("RWS_CONFIG_CORS_ALLOW_HEADERS", "allow_headers", true),
+    ("RWS_CONFIG_CORS_ALLOW_CREDENTIALS", "allow_credentials", false),
+    ("RWS_CONFIG_CORS_EXPOSE_HEADERS", "expose_headers", true),
+    ("RWS_CONFIG_CORS_MAX_AGE", "max_age", false),
+];
+
+fn toml_value(rng: &mut Rng, v: &str, list: bool, multiline: bool, eol: &str) -> String {
+    let q = if rng.chance(1, 2) { "\"" } else { "'" };
+    if list {
+        let items: Vec<String> = v.split(',').filter(|x| !x.is_empty()).map(|x| format!("{}{}{}", q, x, q)).collect();
+        if multiline && !items.is_empty() {
+            let mut out = format!("[{}", eol);
+            for it in &items {
+                out.push_str(&format!("    {},{}", it, eol));
+            }
+            out.push(']');
+            out
+        } else {
+            format!("[{}]", items.join(if rng.chance(1, 2) { ", " } else { "," }))
+        }
+    } else if v == "true" || v == "false" || (!v.is_empty() && v.chars().all(|c| c.is_ascii_digit()) && rng.chance(1, 2)) {
+        v.to_string()
+    } else {
+        format!("{}{}{}", q, v, q)
+    }
+}
+
+/// Turns a scenario whose configuration is `sc.env` into one that gets the same effective
+/// configuration through the real start-up code: every CORS setting comes from the environment, from
+/// `<root>/rws.config.toml` or from the command line, with decoy values in the sources that lose
+/// (command line over file over environment). `multiline`: arrays spread over several lines, whose
+/// meaning the pinned reader does not define (then the scenario is not `exact`).
+pub fn boot_through_start_up(rng: &mut Rng, sc: &mut Scenario, multiline: bool) {
+    let decoy = |k: &str, v: &str| -> String {
+        match k {
+            "RWS_CONFIG_CORS_ALLOW_ALL" => if v == "true" { "false".into() } else { "true".into() },
+            "RWS_CONFIG_CORS_ALLOW_ORIGINS" => "http://decoy.example,http://other.example".into(),
+            "RWS_CONFIG_CORS_ALLOW_METHODS" => "TRACE,CONNECT".into(),
+            "RWS_CONFIG_CORS_ALLOW_HEADERS" => "x-decoy".into(),
+            "RWS_CONFIG_CORS_ALLOW_CREDENTIALS" => if v == "true" { "false".into() } else { "true".into() },
+            "RWS_CONFIG_CORS_EXPOSE_HEADERS" => "x-decoy-exposed".into(),
+            _ => "7".into(),
+        }
+    };
+    let eol = if rng.chance(1, 2) { "\r\n" } else { "\n" };
+    let mut boot = Boot { env: vec![], cli: vec![], exact: !multiline };
+    let mut lines: Vec<String> = vec![];
+    let mut keys: Vec<(&str, &str, bool)> = CORS_KEYS.to_vec();
+    rng.shuffle(&mut keys);
+    for (envk, filek, list) in keys {
+        let eff = match sc.env.iter().find(|(k, _)| k == envk) {
+            Some((_, v)) => v.clone(),
+            None => continue,
+        };
+        // values the line-based reader cannot carry stay in the environment
+        let plain = !eff.contains(|c: char| c == ' ' || c == '#' || c == '\'' || c == '"' || c == '[' || c == ']' || c == '=');
+        let src = if plain { rng.below(5) } else { 0 };
+        let mut file_line = |rng: &mut Rng, v: &str| {
+            let sp = *rng.pick(&[" = ", "=", "  =  ", " ="]);
+            let comment = if rng.chance(1, 3) { format!(" # {}", rng.pick(&["as agreed", "see ticket 12", "do not change"])) } else { String::new() };
+            lines.push(format!("{}{}{}{}", filek, sp, toml_value(rng, v, list, multiline && list, eol), comment));
+        };
+        match src {
+            0 => boot.env.push((envk.to_string(), eff.clone())),
+            1 => {
+                boot.env.push((envk.to_string(), decoy(envk, &eff)));
+                file_line(rng, &eff);
+            }
+            2 => file_line(rng, &eff),
+            3 => {
+                file_line(rng, &decoy(envk, &eff));
+                boot.cli.push(format!("--cors-{}={}", filek.replace('_', "-"), eff));
+            }
+            _ => {
+                boot.env.push((envk.to_string(), decoy(envk, &eff)));
+                boot.cli.push(format!("--cors-{}={}", filek.replace('_', "-"), eff));
+            }
+        }
+    }
+    let mut text = String::new();
+    if rng.chance(1, 2) {
+        text.push_str(&format!("# rws configuration{}{}", eol, eol));
+    }
+    if rng.chance(1, 2) {
+        text.push_str(&format!("ip = '127.0.0.1'{}thread_count = {}{}request-allocation-size-in-bytes = {} # bytes{}{}", eol, sc.workers, eol, sc.request_size, eol, eol));
+    }
+    text.push_str(&format!("[cors]{}", eol));
+    for l in &lines {
+        text.push_str(l);
+        text.push_str(eol);
+        if rng.chance(1, 5) {
+            text.push_str(eol);
+        }
+    }
+    let path = format!("{}/rws.config.toml", sc.tree.root);
+    sc.tree.entries.retain(|e| e.path != path);
+    sc.tree.entries.push(Entry { path, kind: EntryKind::File(Content::Literal(text.into())) });
+    sc.boot = Some(boot);
+}
